@@ -72,7 +72,26 @@ def parse_case(line):
         p += 6
     ns = t[p]
     sched = t[p + 1:p + 1 + ns]
+    if mode != 2 and any(kind >= 10 for lk in tasks for _, kind in lk):
+        tasks = unfold_adaptive(tasks, keys)
     return mode, tasks, keys, sched
+
+
+def unfold_adaptive(tasks, keys):
+    """Adaptive lookups (kind 10+alt: fill_symbol on module alt instead of module key when the task's previous lookup got
+    no symbols).  The property says every requester observes the supplier's single answer for a module, so what an
+    adaptive task asks is determined by the supplier's script: the fixed lists a correct implementation walks through
+    (Coq: c12_adaptive_refines).  Everything that judges an answer works on these lists."""
+    out = []
+    for lk in tasks:
+        prev_ok, row = True, []
+        for k, kind in lk:
+            if kind >= 10:
+                k, kind = (k if prev_ok else kind - 10), 0
+            row.append((k, kind))
+            prev_ok = keys[k][1] == OK
+        out.append(row)
+    return out
 
 
 def fmt_case(mode, tasks, keys, sched):
@@ -611,6 +630,41 @@ class C12(PropBase):
             cases.append(fmt_case(7, tasks, keys, sched))
             npz += 1
         dist["through_the_processor"] = npz
+        # ADAPTIVE requesters (round 5, second pass): lookup kind 10+alt asks for module alt instead of module key when the
+        # task's previous lookup got no symbols (the unwinder: where the caller's frame lies depends on the callee's symbols).
+        # exhaustive: 2 tasks x (first module 0|1, then (k, alt) over 3 modules) x answers of modules 0, 1 x all schedules
+        nad = 0
+        LA = 4 if q else 7
+        ascheds = list(itertools.product((0, 1), repeat=LA))
+        rows = [[(k0, 10 + k0), (k, 10 + alt)] for k0 in (0, 1) for k in (0, 1, 2) for alt in (0, 1, 2) if k != alt]
+        aidents = [(1, 1, 1, 1), (2, 1, 1, 1), (3, 2, 2, 2)]
+        for r0 in rows:
+            for r1 in rows:
+                for o0 in (OK, NOTFOUND):
+                    for o1 in (OK, PARSE):
+                        keys = [(1, o0) + aidents[0], (nad % 2, o1) + aidents[1], (0, OK) + aidents[2]]
+                        for sc in ascheds:
+                            cases.append(fmt_case(0, [r0, r1], keys, sc))
+                            nad += 1
+        # random: 2..4 tasks x 1..3 adaptive lookups over 2..4 modules, explicit / wake-driven / join_all / tokio
+        for r in range(1500 if q else 25000):
+            nt = rng.range(2, 4)
+            nk = rng.range(2, 4)
+            idents = random_idents(rng, nk)
+            keys = [(rng.range(0, 3), rng.choice([OK, OK, NOTFOUND, MISSING, LOAD, PARSE])) + idents[i] for i in range(nk)]
+            tasks = [[(rng.below(nk), 10 + rng.below(nk)) for _ in range(rng.range(1, 3))] for _ in range(nt)]
+            m = rng.choice([0, 0, 0, 0, 1, 1, 1, 4, 4, 5])
+            if m == 0:
+                sched = [rng.below(nt + 1) for _ in range(rng.range(0, 14))]
+            elif m == 1:
+                sched = [rng.below(nt) for _ in range(rng.range(0, 24))]
+            elif m == 4:
+                sched = []
+            else:
+                sched = [rng.range(2, 8), rng.below(4)] + [rng.choice([0, 0, 1, 3]) for _ in range(nt)]
+            cases.append(fmt_case(m, tasks, keys, sched))
+            nad += 1
+        dist["adaptive_requesters"] = nad
         dist.update(schedule_distribution(cases))
         return cases, dist, True
 
